@@ -377,12 +377,13 @@ class VQESolver:
             raise TypeError("operator must be a of string, FermionOperator or QubitOperator type.")
 
         if isinstance(operator, (str, FermionOperator)):
-            if (n_active_electrons is None or n_active_sos is None or spin is None) and self.qubit_mapping == "scbk":
+            # Every mapping but plain Jordan-Wigner needs the register size (and scBK the electron number and spin)
+            if n_active_electrons is None or n_active_sos is None or spin is None:
                 if self.molecule:
                     n_active_electrons = self.molecule.n_active_electrons
                     n_active_sos = self.molecule.n_active_sos
                     spin = self.molecule.active_spin
-                else:
+                elif self.qubit_mapping.lower() == "scbk":
                     raise KeyError("Must supply n_active_electrons, n_active_sos, and spin with a FermionOperator and scbk mapping.")
 
             qubit_operator = fermion_to_qubit_mapping(fermion_operator=exp_op,
